@@ -360,6 +360,10 @@ func checkC02(c *Ctx, r *Report) {
 
 	// (3) bounds of handshake decoders — E1
 	checkLenflowFor(c, r, "handshake-decoders-in-bounds", []string{"OpenSessionRsp", "RAKPMessage2", "RAKPMessage4"})
+
+	// (4) "a wrong RAKP 2 code yields the incorrect-password error": through every exported
+	// entry point above the constructor, too (NewSession → NewV2Session)
+	checkSentinelReachesCaller(c, r, "ErrIncorrectPassword")
 }
 
 // classifyTranscript0 is classifyTranscript guarded for functions that are not transcript-shaped.
